@@ -20,7 +20,8 @@ from vf.models import paths as pm
 
 ID = 'C12'
 LEVEL = 'exploration'
-RULE = ('R cases: (base relativity option/default/absolute/builtin symbol x suffix shape) x (link form -rel SYM | '
+RULE = ('R cases (4 independent chains share one test-case execution; evaluations counts chains): '
+        '(base relativity option/default/absolute/builtin symbol x suffix shape) x (link form -rel SYM | '
         '@[SYM]@/sfx | @[SYM]@ x suffix shape) chains, rendered at 5-6 use points with different current directories; '
         'class key = (R, depth, base, base shape, link forms+shapes, conf variant class).  W cases: creation '
         'instruction form x phase x base x link forms; class key = (W, instruction, phase, base, links, documented '
@@ -42,19 +43,23 @@ ASSUMPTIONS = [
     '(contents, exists, dir-contents, -contents-of) are left to C05/C15',
     'the sandbox runs as root: protection is judged by Exactly refusing the instruction, not by file permissions',
 ]
-EXHAUSTIVE_NOTE = ('R: every (base in 9 relativities x 8 suffix shapes + 5 builtin symbols x 3 reference forms) alone '
-                   '(depth 1) and under every link (3 forms x 8 shapes) (depth 2); W: every (8 instruction forms x 4 '
-                   'phases) x (9 direct relativities | 14 bases x 3 use links | 14 bases x 3 x 3 links); K: every '
-                   'absolute-suffix form x instruction form -- identical in both tiers, independent of the seed')
+EXHAUSTIVE_NOTE = ('R: every base (9 relativities x 8 suffix shapes + 5 builtin symbols x 3 reference forms = 87) alone '
+                   '(depth 1) and under every link (-rel SYM | @[SYM]@/sfx x 8 shapes, @[SYM]@ = 17) (depth 2) = 1566 '
+                   'chains; W: (file, dir, copy-file x 4 phases + their 5 variants `=`, `+=`, copy-dir with the phase '
+                   'rotating) x (8 direct relativities + 14 bases x 3 use links) and 8 instruction forms x 14 bases x '
+                   '3 x 3 links (depth 2, phase rotating); K: 13 absolute-file-name '
+                   'forms x 7 instruction forms x {home, act-home} -- identical in both tiers, independent of the '
+                   'seed; the dimensions conf variant, cd plan, placement of the definitions, included file, process '
+                   'cwd rotate deterministically')
 MIN_OBS = {
-    'quick': {'evaluations': 5000, 'classes': 1500, 'c12.renderings_compared': 60000,
-              'c12.probe_cwd_compared': 8000, 'c12.creation_verdicts_compared': 3000,
-              'c12.created_objects_located': 800, 'c12.home_snapshots_compared': 5000,
-              'c12.m1_events_checked': 50000, 'c12.k_class_cases': 100},
-    'thorough': {'evaluations': 12000, 'classes': 3000, 'c12.renderings_compared': 150000,
-                 'c12.probe_cwd_compared': 20000, 'c12.creation_verdicts_compared': 7000,
-                 'c12.created_objects_located': 2000, 'c12.home_snapshots_compared': 12000,
-                 'c12.m1_events_checked': 120000, 'c12.k_class_cases': 100},
+    'quick': {'evaluations': 4000, 'classes': 3000, 'c12.renderings_compared': 45000,
+              'c12.probe_cwd_compared': 2200, 'c12.creation_verdicts_compared': 2200,
+              'c12.created_objects_located': 900, 'c12.home_snapshots_compared': 2600,
+              'c12.m1_events_checked': 50000, 'c12.k_class_cases': 180},
+    'thorough': {'evaluations': 18000, 'classes': 6000, 'c12.renderings_compared': 220000,
+                 'c12.probe_cwd_compared': 10000, 'c12.creation_verdicts_compared': 9000,
+                 'c12.created_objects_located': 4000, 'c12.home_snapshots_compared': 11000,
+                 'c12.m1_events_checked': 250000, 'c12.k_class_cases': 450},
 }
 
 PHASES = ['setup', 'before-assert', 'assert', 'cleanup']
@@ -63,6 +68,7 @@ BASE_RELS = ['home', 'act-home', 'act', 'tmp', 'result', 'cd', 'here', 'dflt', '
 BUILTINS = sorted(pm.BUILTIN_PATH_SYMBOLS)
 LINK_FORMS = ['relsym', 'lead', 'plain']
 INSTRS = ['file', 'file=', 'file+=', 'dir', 'dir=', 'dir+=', 'copyf', 'copyd']
+W_BASIC = ('file', 'dir', 'copyf')
 W_SHAPES = ['plain', 'nested', 'sref', 'mixed', 'sslash', 'softq', 'hardq']  # never 'dot' for an object to create
 
 # cd plans: one optional `cd` before use points u1..u4; (source text, required cd | None, resulting cd)
@@ -148,6 +154,14 @@ def _all_links():
     yield 'plain', None
 
 
+_REF_SHAPES = ('sref', 'mixed', 'sslash', 'softq')
+
+
+def _w_base_label(base, sh):
+    """An absolute path that contains a symbol reference is its own class (see KNOWN)."""
+    return 'abs-with-symref' if (base == 'abs' and sh in _REF_SHAPES) else base
+
+
 def _w_bases():
     for rel in BASE_RELS:
         yield rel
@@ -163,48 +177,63 @@ K_INSTRS = ['file', 'file=', 'file+=', 'dir', 'dir=', 'copyf', 'copyd']
 
 def cases(tier, seed):
     n = 0
-    # ---------------- R core: depth 1 and 2, exhaustive -------------------------------------------
+    # ---------------- R core: depth 1 and 2, exhaustive; R_BATCH independent chains share one test case ----
+    chains = []
     for kind, sh in _all_bases():
         n += 1
-        yield _r_case(n, [_base_expr(kind, sh)], [kind], [sh])
+        chains.append(_r_chain(n, [_base_expr(kind, sh)], [kind], [sh]))
     for kind, sh in _all_bases():
         for form, lsh in _all_links():
             n += 1
-            yield _r_case(n, [_base_expr(kind, sh), _link_expr(form, 'P1', lsh or 'plain', '')],
-                          [kind, form], [sh, lsh])
+            chains.append(_r_chain(n, [_base_expr(kind, sh), _link_expr(form, 'P1', lsh or 'plain', '')],
+                                   [kind, form], [sh, lsh]))
+    for g in range(0, len(chains), R_BATCH):
+        yield _r_case(g // R_BATCH, chains[g:g + R_BATCH])
     # ---------------- W core ---------------------------------------------------------------------
     for instr in INSTRS:
-        for phase in PHASES:
-            for rel in BASE_RELS:  # direct: the option (or default / absolute literal) on the instruction itself
+        # the three basic forms meet every phase; their `=` / `+=` / directory-copy variants (same argument parser in
+        # the same phase) take one phase each, rotating with the relativity
+        for pi, phase in enumerate(PHASES if instr in W_BASIC else [None]):
+            for rel in BASE_RELS:  # direct: the option (or default) on the instruction itself
                 n += 1
                 if rel == 'abs':
                     continue  # an absolute literal directly on the instruction is K form 'literal'
-                yield _w_case(n, [], _w_use_direct(rel, n), instr, phase, [rel])
+                yield _w_case(n, [], _w_use_direct(rel, n), instr, phase or PHASES[n % 4], [rel])
             for base in _w_bases():
                 for use in LINK_FORMS:
                     n += 1
-                    ch = [_base_expr(base, W_SHAPES[n % len(W_SHAPES)])]
-                    yield _w_case(n, ch, _link_expr(use, 'P1', W_SHAPES[(n // 3) % len(W_SHAPES)], ''), instr, phase,
-                                  [base, use])
-                    for mid in LINK_FORMS:
-                        n += 1
-                        ch2 = [_base_expr(base, W_SHAPES[n % len(W_SHAPES)]),
-                               _link_expr(mid, 'P1', W_SHAPES[(n // 5) % len(W_SHAPES)], '')]
-                        yield _w_case(n, ch2, _link_expr(use, 'P2', W_SHAPES[(n // 3) % len(W_SHAPES)], ''), instr,
-                                      phase, [base, mid, use])
+                    sh = W_SHAPES[n % len(W_SHAPES)]
+                    yield _w_case(n, [_base_expr(base, sh)],
+                                  _link_expr(use, 'P1', W_SHAPES[(n // 3) % len(W_SHAPES)], ''), instr,
+                                  phase or PHASES[n % 4], [_w_base_label(base, sh), use])
+        for base in _w_bases():  # depth 2: every base x mid link x use link, the phase rotating
+            for mid in LINK_FORMS:
+                for use in LINK_FORMS:
+                    n += 1
+                    sh = W_SHAPES[n % len(W_SHAPES)]
+                    ch2 = [_base_expr(base, sh), _link_expr(mid, 'P1', W_SHAPES[(n // 5) % len(W_SHAPES)], '')]
+                    c = _w_case(n, ch2, _link_expr(use, 'P2', W_SHAPES[(n // 3) % len(W_SHAPES)], ''), instr,
+                                PHASES[n % 4], [_w_base_label(base, sh), mid, use])
+                    if (instr, base, mid, use) in _SAMPLE_W:
+                        c['sample'] = True
+                    yield c
     # ---------------- K core ---------------------------------------------------------------------
     for kform in K_FORMS:
         for instr in K_INSTRS:
             for which in ('home', 'act-home'):
                 n += 1
-                yield {'t': 'K', 'kform': kform, 'instr': instr, 'which': which, 'phase': PHASES[n % 4],
-                       'conf': ['both', 'inc', 'default', 'home', 'acthome'][n % 5], 'cwd': 'else' if n % 2 else 'case'}
+                c = {'t': 'K', 'kform': kform, 'instr': instr, 'which': which, 'phase': PHASES[n % 4],
+                     'conf': ['both', 'inc', 'default', 'home', 'acthome'][n % 5], 'cwd': 'else' if n % 2 else 'case'}
+                if (kform, instr, which) in (('opt-act', 'file=', 'home'), ('sym-dflt-strsym:relsym', 'dir', 'home')):
+                    c['sample'] = True
+                yield c
     # ---------------- seeded part ----------------------------------------------------------------
     rng = common.rng_for(seed, ID)
-    n_r, n_w, n_k = (700, 700, 40) if tier == 'quick' else (5000, 4500, 300)
-    for i in range(n_r):
-        depth = rng.choice([2, 3, 3, 3])
-        yield _rand_r(rng, depth)
+    n_r, n_w, n_k = (700, 600, 40) if tier == 'quick' else (9000, 9000, 400)
+    for i in range(n_r // R_BATCH):
+        g = [_rand_r_chain(rng, rng.choice([2, 3, 3, 3])) for _ in range(R_BATCH)]
+        yield {'t': 'R', 'chains': g, 'conf': rng.choice(CONFS), 'plan': rng.randrange(len(CD_PLANS)),
+               'inc': rng.random() < 0.4, 'act': rng.random() < 0.4, 'cwd': rng.choice(['case', 'else'])}
     for i in range(n_w):
         yield _rand_w(rng, rng.choice([0, 1, 2, 3, 3, 3]))
     for i in range(n_k):
@@ -213,17 +242,32 @@ def cases(tier, seed):
                'cwd': rng.choice(['case', 'else'])}
 
 
-def _r_case(n, chain, forms, shapes):
+R_BATCH = 4
+
+
+def _r_chain(n, chain, forms, shapes):
     depth = len(chain)
-    # deterministic rotation of the remaining dimensions
+    # deterministic rotation of the placement of the definitions (use point before which each one stands)
     place = [(n // 2) % 4] if depth == 1 else [[0, 0], [0, 1], [1, 2], [0, 3], [2, 2], [1, 1], [0, 2], [3, 3]][n % 8]
-    return {'t': 'R', 'chain': chain, 'place': place, 'conf': CONFS[n % len(CONFS)], 'plan': n % len(CD_PLANS),
-            'inc': (n % 3 == 0), 'act': (n % 2 == 0), 'cwd': 'else' if (n // 2) % 2 else 'case',
+    return {'chain': chain, 'place': place,
             'key': [depth, forms[0], shapes[0]] + ['%s/%s' % (f, s) for f, s in zip(forms[1:], shapes[1:])]}
 
 
-def _rand_chain(rng, depth, shapes, allow_dot=True):
-    kind = rng.choice(BASE_RELS + ['B:%s:%s' % (rng.choice(BUILTINS), rng.choice(LINK_FORMS))])
+_SAMPLE_R = [2, 'cd', 'plain', 'relsym/nested']
+_SAMPLE_W = {('file=', 'home', 'relsym', 'lead'), ('copyf', 'cd', 'lead', 'relsym')}
+
+
+def _r_case(g, chains):
+    c = {'t': 'R', 'chains': chains, 'conf': CONFS[g % len(CONFS)], 'plan': g % len(CD_PLANS),
+         'inc': (g % 3 == 0), 'act': (g % 3 == 1), 'cwd': 'else' if (g // 2) % 2 else 'case'}
+    for j, ch in enumerate(chains):
+        if ch['key'] == _SAMPLE_R:
+            c['sample'] = j  # exactly one core case is written out as evidence sample
+    return c
+
+
+def _rand_chain(rng, depth, shapes, builtin_forms=LINK_FORMS):
+    kind = rng.choice(BASE_RELS + ['B:%s:%s' % (rng.choice(BUILTINS), rng.choice(builtin_forms))])
     sh0 = rng.choice(shapes)
     chain = [_base_expr(kind, sh0)]
     forms, shs = [kind], [sh0]
@@ -237,11 +281,9 @@ def _rand_chain(rng, depth, shapes, allow_dot=True):
     return chain, forms, shs
 
 
-def _rand_r(rng, depth):
+def _rand_r_chain(rng, depth):
     chain, forms, shs = _rand_chain(rng, depth, pm.SHAPE_NAMES)
-    place = sorted(rng.randrange(4) for _ in chain)
-    return {'t': 'R', 'chain': chain, 'place': place, 'conf': rng.choice(CONFS), 'plan': rng.randrange(len(CD_PLANS)),
-            'inc': rng.random() < 0.4, 'act': rng.random() < 0.5, 'cwd': rng.choice(['case', 'else']),
+    return {'chain': chain, 'place': sorted(rng.randrange(4) for _ in chain),
             'key': [depth, forms[0], shs[0]] + ['%s/%s' % (f, s) for f, s in zip(forms[1:], shs[1:])]}
 
 
@@ -262,7 +304,8 @@ def _rand_w(rng, depth):
     if depth == 0:
         rel = rng.choice([r for r in BASE_RELS if r != 'abs'])
         return _w_case(rng.randrange(10 ** 6), [], _w_use_direct(rel, rng.randrange(100)), instr, phase, [rel])
-    chain, forms, shs = _rand_chain(rng, depth, W_SHAPES)
+    chain, forms, shs = _rand_chain(rng, depth, W_SHAPES, ['relsym', 'lead'])
+    forms[0] = _w_base_label(forms[0], shs[0])
     use = rng.choice(LINK_FORMS)
     c = _w_case(rng.randrange(10 ** 6), chain, _link_expr(use, 'P%d' % depth, rng.choice(W_SHAPES), ''), instr, phase,
                 forms + [use])
@@ -287,16 +330,20 @@ def _conf(variant):
     raise ValueError(variant)
 
 
-_HOME_DIRS = ['', 'hd', 'ahd', 'cfg/hd2']
-
-
-def _home_files():
-    fs = {'inc/placeholder.txt': 'p\n'}
-    for hd in _HOME_DIRS:
+def _home_files(home, acthome, need=()):
+    """Few files (file creation is the dominating cost here).  Every home directory gets keep/me.txt."""
+    fs = {}
+    for hd in {home, acthome}:
         p = (hd + '/') if hd else ''
-        fs[p + 'src.txt'] = 'src@%s\n' % hd
-        fs[p + 'srcd/in.txt'] = 'in@%s\n' % hd
         fs[p + 'keep/me.txt'] = 'keep@%s\n' % hd
+    hp = (home + '/') if home else ''
+    ap = (acthome + '/') if acthome else ''
+    if 'src' in need:
+        fs[hp + 'src.txt'] = 'src@%s\n' % home
+    if 'src@act-home' in need:
+        fs[ap + 'src.txt'] = 'src@%s\n' % acthome
+    if 'srcd' in need:
+        fs[ap + 'srcd/in.txt'] = 'in@%s\n' % acthome
     return fs
 
 
@@ -308,68 +355,78 @@ def _probe_line(out, ident, args, act=False):
     return '%s%s %s %s %s' % ('' if act else '% ', probe.PROBE, out, probe.ctrl(id=ident), ' '.join(args))
 
 
+_LETTERS = 'ABCDEFGH'
+
+
+def _rename(expr, letter):
+    """P<k> -> <letter><k> (the chains of one test case have disjoint symbol names)."""
+    e = dict(expr)
+    if 'sym' in e and e['sym'].startswith('P'):
+        e['sym'] = letter + e['sym'][1:]
+    return e
+
+
 def build_r(case, out):
-    """-> (files, expectations)  expectations: list of (probe id, cd loc, [(label, kind, loc | None, text)])"""
+    """-> (files, expectations, home, acthome)
+    expectations: list of (probe id, cd loc, [(chain index | None, label, kind, loc, prefix)])"""
     m = pm.Model()
     conf_lines, files, home, acthome = _conf(case['conf'])
-    files.update(_home_files())
+    files.update(_home_files(home, acthome))
     L = list(conf_lines)
     L.append('[setup]')
     L += _string_defs()
     L += ['dir -rel-tmp w1/w2', 'dir -rel-act a1/a2']
     plan = CD_PLANS[case['plan']]
-    chain, place = case['chain'], case['place']
     exp = []
-    defined = []
-
-    def defs_at(point):
-        lines = []
-        for k, (e, p) in enumerate(zip(chain, place)):
-            if p == point:
-                lines.append(('P%d' % (k + 1), e))
-        return lines
+    defined = [[] for _ in case['chains']]
 
     def emit_defs(point):
-        ds = defs_at(point)
+        ds = []
+        for j, ch in enumerate(case['chains']):
+            for k, (e, p) in enumerate(zip(ch['chain'], ch['place'])):
+                if p == point:
+                    ds.append((j, '%s%d' % (_LETTERS[j], k + 1), _rename(e, _LETTERS[j])))
         if not ds:
             return
-        if case['inc'] and point == 0:
-            files['inc/defs.xly'] = ''.join('def path %s = %s\n' % (nm, pm.render(e, _ABS_OUT)) for nm, e in ds)
+        if case['inc'] and point == 0:  # -rel-here is relative to the location of the file holding the definition
+            files['inc/defs.xly'] = ''.join('def path %s = %s\n' % (nm, pm.render(e, _ABS_OUT)) for _, nm, e in ds)
             L.append('including inc/defs.xly')
-            for nm, e in ds:
-                m.define(nm, e, 'inc')
+            here = 'inc'
         else:
-            for nm, e in ds:
+            for _, nm, e in ds:
                 L.append('def path %s = %s' % (nm, pm.render(e, _ABS_OUT)))
-                m.define(nm, e, 'case')
-        defined.extend(nm for nm, _ in ds)
+            here = 'case'
+        for j, nm, e in ds:
+            m.define(nm, e, here)
+            defined[j].append(nm)
 
     def emit_probe(ident, act=False, existing=False):
         args, items = [], []
-        for nm in defined:
-            args.append('@[%s]@' % nm)
-            items.append((nm, 'path', m.locate({'form': 'plain', 'sym': nm}), ''))
-        if defined:
-            last = defined[-1]
-            loc = m.locate({'form': 'plain', 'sym': last})
-            args.append('"@[%s]@"' % last)
-            items.append(('"%s"' % last, 'path', loc, ''))
-            args.append('pre=@[%s]@/t' % last)
-            items.append(('pre=%s/t' % last, 'concat', (loc[0], pm.join(loc[1], 't')), 'pre='))
+        for j, names in enumerate(defined):
+            for nm in names:
+                args.append('@[%s]@' % nm)
+                items.append((j, nm, 'path', m.locate({'form': 'plain', 'sym': nm}), ''))
+            if names:
+                last = names[-1]
+                loc = m.locate({'form': 'plain', 'sym': last})
+                args.append('"@[%s]@"' % last)
+                items.append((j, '"%s"' % last, 'path', loc, ''))
+                args.append('pre=@[%s]@/t' % last)
+                items.append((j, 'pre=%s/t' % last, 'concat', (loc[0], pm.join(loc[1], 't')), 'pre='))
         for b in BUILTINS:
             args.append('@[%s]@' % b)
-            items.append((b, 'path', (pm.BUILTIN_PATH_SYMBOLS[b], ''), ''))
-        if existing:
+            items.append((None, b, 'path', (pm.BUILTIN_PATH_SYMBOLS[b], ''), ''))
+        if existing:  # reading usage: PATH arguments of another relativity configuration (default: home)
             for txt, loc in (('-existing-dir keep', ('home', 'keep')),
                              ('-existing-file -rel-act-home keep/me.txt', ('act-home', 'keep/me.txt')),
-                             ('-existing-file -rel-home src.txt', ('home', 'src.txt')),
+                             ('-existing-file -rel-home keep/me.txt', ('home', 'keep/me.txt')),
                              ('-existing-dir -rel-act a1', ('act', 'a1')),
                              ('-existing-dir -rel-tmp w1', ('tmp', 'w1')),
                              ('-existing-dir -rel-cd .', m.cd),
                              ('-existing-path -rel EXACTLY_TMP w1/w2', ('tmp', 'w1/w2')),
-                             ('-existing-path @[EXACTLY_ACT_HOME]@/srcd/in.txt', ('act-home', 'srcd/in.txt'))):
+                             ('-existing-path @[EXACTLY_ACT_HOME]@/keep', ('act-home', 'keep'))):
                 args.append(txt)
-                items.append((txt, 'path', loc, ''))
+                items.append((None, txt, 'path', loc, ''))
         L.append(_probe_line(out, ident, args, act))
         exp.append((ident, m.cd, items))
 
@@ -404,59 +461,64 @@ def build_r(case, out):
 
 
 _ABS_OUT = {'out': '/c12-abs-root/x'}
+# the 'abs' base in W cases points INTO the home directory (a symbol with that value must be rejected)
+_ABS_IN_HOME = {'out': '$HOME$/absbase'}
 
 _FILE_TEXT = 'c12 text'
 
 
 def _instr_lines(instr, p, accepted):
-    """-> (lines, expected object)  object: ('f', content) | ('d', {name: content}) ; `accepted`: pre-create for +="""
+    """-> (lines, expected object, needed home files)
+    object: ('f', content) | ('d', {name: content}); content str or a location whose contents was copied.
+    `accepted`: pre-create the target for the += forms."""
     if instr == 'file':
-        return ['file ' + p], ('f', '')
+        return ['file ' + p], ('f', ''), ()
     if instr == 'file=':
-        return ['file %s = "%s"' % (p, _FILE_TEXT)], ('f', _FILE_TEXT)
+        return ['file %s = "%s"' % (p, _FILE_TEXT)], ('f', _FILE_TEXT), ()
     if instr == 'file+=':
         pre = ['file %s = "one"' % p] if accepted else []
-        return pre + ['file %s += "two"' % p], ('f', 'onetwo')
+        return pre + ['file %s += "two"' % p], ('f', 'onetwo'), ()
     if instr == 'dir':
-        return ['dir ' + p], ('d', {})
+        return ['dir ' + p], ('d', {}), ()
     if instr == 'dir=':
-        return ['dir %s = {' % p, '  file inner.txt = "in"', '}'], ('d', {'inner.txt': 'in'})
+        return ['dir %s = {' % p, '  file inner.txt = "in"', '}'], ('d', {'inner.txt': 'in'}), ()
     if instr == 'dir+=':
         pre = ['dir ' + p] if accepted else []
-        return pre + ['dir %s += {' % p, '  file added.txt', '}'], ('d', {'added.txt': ''})
-    if instr == 'copyf':
-        return ['copy src.txt ' + p], ('f', ('home', 'src.txt'))
+        return pre + ['dir %s += {' % p, '  file added.txt', '}'], ('d', {'added.txt': ''}), ()
+    if instr == 'copyf':  # SOURCE: default relativity is the home directory
+        return ['copy src.txt ' + p], ('f', ('home', 'src.txt')), ('src',)
     if instr == 'copyd':
-        return ['copy -rel-act-home srcd ' + p], ('d', {'in.txt': ('act-home', 'srcd/in.txt')})
+        return ['copy -rel-act-home srcd ' + p], ('d', {'in.txt': ('act-home', 'srcd/in.txt')}), ('srcd',)
     raise ValueError(instr)
 
 
-def _w_skeleton(case, out, pre_defs, body):
+def _w_skeleton(case, pre_defs, body, need):
     conf_lines, files, home, acthome = _conf(case['conf'])
-    files.update(_home_files())
+    files.update(_home_files(home, acthome, need))
     L = list(conf_lines)
     L.append('[setup]')
     L += _string_defs()
-    L.append(_probe_line(out, 'pre', []))
-    L.append('dir -rel-tmp w1')
-    L.append('dir -rel-act a1')
+    if case.get('cd') == 1:
+        L.append('dir -rel-tmp w1')
+    elif case.get('cd') == 2:
+        L.append('dir -rel-act a1')
     L += pre_defs
     for ph in PHASES:
         if ph != 'setup':
             L.append('[%s]' % ph)
         if ph == case['phase']:
             L += body
-            L.append(_probe_line(out, 'post', []))
     files['t.case'] = '\n'.join(L) + '\n'
     return files, home, acthome
 
 
-def build_w(case, out):
+def build_w(case):
     m = pm.Model()
     defs = []
+    abs_with_ref = False
     for k, e in enumerate(case['chain']):
         nm = 'P%d' % (k + 1)
-        defs.append('def path %s = %s' % (nm, pm.render(e, _ABS_HOME_PLACEHOLDER)))
+        defs.append('def path %s = %s' % (nm, pm.render(e, _ABS_IN_HOME)))
         m.define(nm, e, 'case')
     use = case['use']
     body = []
@@ -467,59 +529,61 @@ def build_w(case, out):
     elif cdk == 2:
         body.append('cd a1')
         m.cd = ('act', 'a1')
+    rel = m.ultimate_relativity(use, 'creation')
     direct = use['form'] in ('opt', 'dflt')
     if direct:
-        rel = m.ultimate_relativity(use, 'creation')
         verdict = 'SYNTAX_ERROR' if rel in pm.CREATION_OPTION_REJECTED else 'PASS'
-        assert verdict == 'SYNTAX_ERROR' or rel in pm.CREATION_ACCEPTED
     else:
-        rel = m.ultimate_relativity(use, 'creation')
         verdict = 'VALIDATION_ERROR' if rel in pm.CREATION_SYMBOL_REJECTED else 'PASS'
-        assert verdict == 'VALIDATION_ERROR' or rel in pm.CREATION_ACCEPTED
-    lines, obj = _instr_lines(case['instr'], pm.render(use, _ABS_HOME_PLACEHOLDER), verdict == 'PASS')
+    assert verdict != 'PASS' or rel in pm.CREATION_ACCEPTED
+    if rel == 'abs':
+        base = m.ultimate_base(use)
+        abs_with_ref = base['sfx']['q'] != 'hard' and any(p[0] == 's' for p in base['sfx']['parts'])
+    lines, obj, need = _instr_lines(case['instr'], pm.render(use, _ABS_IN_HOME), verdict == 'PASS')
     pre_defs = []
     if case.get('late'):
         body += defs
     else:
         pre_defs = defs
     body += lines
-    files, home, acthome = _w_skeleton(case, out, pre_defs, body)
-    loc = m.locate(use, 'creation') if verdict == 'PASS' else None
-    return files, home, acthome, {'verdict': verdict, 'rel': rel, 'loc': loc, 'obj': obj}
+    files, home, acthome = _w_skeleton(case, pre_defs, body, need)
+    # where the object is (accepted) / would be if the restriction were not applied (rejected): for the witness
+    loc = m.locate(use, 'creation')
+    if rel == 'abs' and case['instr'] in ('file+=', 'dir+='):
+        # the object to MODIFY exists in the home directory, so that a missing protection shows as a modification
+        t = os.path.normpath(os.path.join(home, 'absbase', loc[1]))
+        files[t] = 'orig' if case['instr'] == 'file+=' else ('dir',)
+    return files, home, acthome, {'verdict': verdict, 'rel': rel, 'loc': loc, 'obj': obj,
+                                  'abs_with_ref': abs_with_ref, 'path_arg': pm.render(use, _ABS_IN_HOME),
+                                  'defs': defs}
 
 
-# the 'abs' base in W cases points INTO the home directory (a symbol with that value must be rejected)
-_ABS_HOME_PLACEHOLDER = {'out': '$HOME$/absbase'}
-
-
-def build_k(case, out):
+def build_k(case):
     """Absolute file name under a relativity / via a string symbol.  -> files, home, acthome, info"""
     kform, instr = case['kform'], case['instr']
     H = '$HOME$' if case['which'] == 'home' else '$ACTHOME$'
-    T = 'src.txt' if instr == 'file+=' else 'srcd' if instr == 'dir+=' else 'esc-c12'
+    T = 'src.txt' if instr == 'file+=' else 'esc-c12'
     sa = 'def string SA = ' + H
     defs = []
-    target_rel = T  # relative to the chosen home directory
+    group = 'explicit-relativity'
     if kform in ('opt-act', 'opt-tmp', 'opt-cd'):
         p = '%s %s/%s' % (pm.REL_OPTION[kform[4:]], H, T)
-        group = 'with-relativity'
     elif kform == 'literal':
         p = '%s/%s' % (H, T)
-        group = 'no-relativity'
+        group = 'literal'
     elif kform == 'opt-strsym':
-        defs, p, group = [sa], '-rel-tmp @[SA]@/%s' % T, 'with-relativity'
+        defs, p = [sa], '-rel-tmp @[SA]@/%s' % T
     elif kform == 'dflt-strsym':
-        defs, p, group = [sa], '@[SA]@/%s' % T, 'no-relativity'
+        defs, p, group = [sa], '@[SA]@/%s' % T, 'symref-no-relativity'
     elif kform == 'relsym-abs-sfx':
-        defs, p, group = ['def path PK = -rel-act kx'], '-rel PK %s/%s' % (H, T), 'with-relativity'
+        defs, p = ['def path PK = -rel-act kx'], '-rel PK %s/%s' % (H, T)
     elif kform.startswith('sym-rel-act-strsym:'):
         defs = [sa, 'def path PK = -rel-act @[SA]@']
         p = ('-rel PK %s' % T) if kform.endswith(':relsym') else '@[PK]@/%s' % T
-        group = 'with-relativity'
     elif kform == 'sym-rel-act-abs:relsym':
-        defs, p, group = ['def path PK = -rel-act %s' % H], '-rel PK %s' % T, 'with-relativity'
+        defs, p = ['def path PK = -rel-act %s' % H], '-rel PK %s' % T
     elif kform == 'sym-dflt-strsym:relsym':
-        defs, p, group = [sa, 'def path PK = @[SA]@'], '-rel PK %s' % T, 'no-relativity'
+        defs, p, group = [sa, 'def path PK = @[SA]@'], '-rel PK %s' % T, 'symref-no-relativity'
     elif kform.startswith('sym2-rel-tmp-strsym:'):
         defs = [sa, 'def path PK = -rel-tmp @[SA]@']
         if kform.endswith(':relsym'):
@@ -528,12 +592,14 @@ def build_k(case, out):
         else:
             defs.append('def path PK2 = -rel PK %s' % T)
             p = '@[PK2]@'
-        group = 'with-relativity'
     else:
         raise ValueError(kform)
-    lines, obj = _instr_lines(instr, p, False)
-    files, home, acthome = _w_skeleton(case, out, defs, lines)
-    return files, home, acthome, {'group': group, 'target': target_rel, 'obj': obj, 'path_arg': p, 'defs': defs}
+    lines, obj, need = _instr_lines(instr, p, False)
+    need = set(need)
+    if instr == 'file+=':
+        need.add('src' if case['which'] == 'home' else 'src@act-home')
+    files, home, acthome = _w_skeleton(case, defs, lines, need)
+    return files, home, acthome, {'group': group, 'target': T, 'obj': obj, 'path_arg': p, 'defs': defs}
 
 
 # =====================================================================================================
@@ -546,8 +612,8 @@ _W12 = ('os.rename', 'shutil.move')
 
 
 def m1_write_targets(audit, cwd0):
-    """Absolute paths written/created/removed/changed according to the M1 events (relative ones resolved against
-    the chdir history)."""
+    """(event, absolute path) written/created/removed/changed according to the M1 events (relative paths resolved
+    against the chdir history)."""
     cwd = cwd0
     out = []
 
@@ -608,15 +674,13 @@ def run_case(case, ctx):
         pass
     d = os.path.realpath(ses.new_case_dir({}))
     t = case['t']
-    info = None
+    info = exp = None
     if t == 'R':
         files, exp, home, acthome = build_r(case, out)
     elif t == 'W':
-        files, home, acthome, info = build_w(case, out)
-        exp = None
+        files, home, acthome, info = build_w(case)
     else:
-        files, home, acthome, info = build_k(case, out)
-        exp = None
+        files, home, acthome, info = build_k(case)
     home_abs = os.path.normpath(os.path.join(d, home))
     acthome_abs = os.path.normpath(os.path.join(d, acthome))
     for k in list(files):
@@ -626,28 +690,33 @@ def run_case(case, ctx):
     case_text = files['t.case']
     elsewhere = os.path.join(ctx.scratch, 'c12-elsewhere')
     os.makedirs(elsewhere, exist_ok=True)
-    run_cwd = d if case.get('cwd') == 'case' else elsewhere
+    run_cwd = d if case.get('cwd') == 'case' else elsewhere  # the process cwd must not matter
     before = snapshot_tree(d)
     r = ses.run(['--keep', os.path.join(d, 't.case')], cwd=run_cwd, mode='keep')
     after = snapshot_tree(d)
     viol, inconc = [], []
     ident = first_line(r.err)
-    observed = {'rc': r.rc, 'ident': ident, 'stdout': r.out[:300], 'stderr': r.err[:1500], 'exc': r.exc}
-    label = '%s %s' % (t, '/'.join(str(x) for x in (case.get('key') or [case.get('kform'), case.get('instr')])))
+    observed = {'rc': r.rc, 'ident': ident, 'stdout': r.out[:300], 'stderr': r.err[:1200], 'exc': r.exc}
+    if t == 'R':
+        label = 'R'
+    else:
+        label = '%s %s %s@%s' % (t, '/'.join(str(x) for x in (case.get('key') or [case.get('kform')])),
+                                 case['instr'], case['phase'])
 
     def bad(msg, **detail):
-        dd = {'case_text': case_text, 'observed': observed}
+        dd = {'case_text': case_text.replace(probe.PROBE, 'PROBE'), 'observed': observed}
         dd.update(detail)
         viol.append({'what': 'C12 %s: %s' % (label, msg), 'detail': dd})
 
     sample = None
     classes = []
+    n_eval = 1
     if r.timed_out:
         inconc.append('watchdog')
     elif r.exc is not None:
         bad('exception escaped MainProgram.execute')
     else:
-        # ---- M8 + M1 on the home directories: in EVERY case ----------------------------------
+        # ---- M8 + M1 on the home directories (the whole case directory): in EVERY case ---------------
         hd = _diff(before, after)
         ctx.count('c12.home_snapshots_compared')
         writes = m1_write_targets(r.audit, r.cwd_before)
@@ -655,35 +724,36 @@ def run_case(case, ctx):
         below = sorted({'%s %s' % (n, os.path.relpath(p, d)) for n, p in writes if _below(p, d)})
         observed['home_diff'] = hd
         observed['m1_writes_below_home'] = below
+        observed['sandbox_created'] = bool(r.new_tmp_entries) or any(e[0] == 'tempfile.mkdtemp' for e in r.audit)
         sds = r.out[:-1] if r.out.endswith('\n') else r.out
-        recs = probe.read_records(out)
-        observed['probe_ids'] = [x['id'] for x in recs]
-        home_changed = any(hd.values()) or bool(below)
-        if t == 'K':
-            classes, sample = _judge_k(case, ctx, info, d, home, acthome, hd, below, home_changed, ident, r, recs, bad,
-                                       case_text)
+        env = {'case': case, 'ctx': ctx, 'd': d, 'home': home, 'acthome': acthome, 'home_abs': home_abs,
+               'acthome_abs': acthome_abs, 'sds': sds, 'ident': ident, 'r': r, 'bad': bad,
+               'case_text': case_text.replace(probe.PROBE, 'PROBE'), 'hd': hd, 'below': below,
+               'home_changed': any(hd.values()) or bool(below)}
+        if t == 'R':
+            if env['home_changed']:
+                bad('home directories were modified by a case that only defines and renders paths',
+                    home_diff=hd, m1_writes_below_home=below)
+            rres, sample = _judge_r(env, exp, probe.read_records(out))
+            classes, n_eval = rres['classes'], rres['evaluations']
+        elif t == 'W':
+            classes, sample = _judge_w(env, info)
         else:
-            if home_changed:
-                bad('home directories were modified', home_diff=hd, m1_writes_below_home=below)
-            if t == 'R':
-                classes, sample = _judge_r(case, ctx, exp, d, home_abs, acthome_abs, sds, ident, r, recs, bad,
-                                           case_text)
-            else:
-                classes, sample = _judge_w(case, ctx, info, d, home_abs, acthome_abs, sds, ident, r, recs, bad,
-                                           case_text)
+            classes, sample = _judge_k(env, info)
     ses.clean_tmp()
     ses.drop(d)
-    res = {'classes': classes, 'viol': viol, 'inconclusive': inconc}
+    res = {'classes': classes, 'viol': viol, 'inconclusive': inconc, 'evaluations': n_eval}
     if sample is not None:
         res['sample'] = sample
     return res
 
 
-def _roots(d, home_abs, acthome_abs, sds):
-    roots = {'home': home_abs, 'act-home': acthome_abs, 'case': d, 'inc': os.path.join(d, 'inc'),
+def _roots(env):
+    d = env['d']
+    roots = {'home': env['home_abs'], 'act-home': env['acthome_abs'], 'case': d, 'inc': os.path.join(d, 'inc'),
              'abs:out': _ABS_OUT['out']}
     for k, sub in pm.SDS_SUBDIR.items():
-        roots[k] = os.path.join(sds, sub)
+        roots[k] = os.path.join(env['sds'], sub)
     return roots
 
 
@@ -691,19 +761,23 @@ def _conf_class(conf):
     return 'conf-default' if conf == 'default' else 'conf-set'
 
 
-def _sds_ok(sds, r, ses_tmp_entries):
-    return bool(sds) and os.path.isabs(sds) and os.path.isdir(sds) and os.path.basename(sds) in ses_tmp_entries
+def _sds_ok(env):
+    sds = env['sds']
+    return bool(sds) and os.path.isabs(sds) and os.path.isdir(sds) and \
+        os.path.basename(sds) in env['r'].new_tmp_entries
 
 
-def _judge_r(case, ctx, exp, d, home_abs, acthome_abs, sds, ident, r, recs, bad, case_text):
-    key = ('R',) + tuple(case['key']) + (_conf_class(case['conf']),)
-    if ident != 'PASS' or r.rc != 0:
-        bad('a case that only defines and renders paths must PASS, got %s/%s' % (ident, r.rc))
-        return [key], None
-    if not _sds_ok(sds, r, r.new_tmp_entries):
-        bad('--keep did not print the sandbox directory created by this run: %r' % sds)
-        return [key], None
-    roots = _roots(d, home_abs, acthome_abs, sds)
+def _judge_r(env, exp, recs):
+    case, ctx, bad, r = env['case'], env['ctx'], env['bad'], env['r']
+    keys = [('R',) + tuple(ch['key']) + (_conf_class(case['conf']),) for ch in case['chains']]
+    res = {'classes': keys, 'evaluations': len(keys)}
+    if env['ident'] != 'PASS' or r.rc != 0:
+        bad('a case that only defines and renders paths must PASS, got %s/%s' % (env['ident'], r.rc))
+        return res, None
+    if not _sds_ok(env):
+        bad('--keep did not print the sandbox directory created by this run: %r' % env['sds'])
+        return res, None
+    roots = _roots(env)
     by_id = {}
     for x in recs:
         by_id.setdefault(x['id'], []).append(x)
@@ -717,15 +791,14 @@ def _judge_r(case, ctx, exp, d, home_abs, acthome_abs, sds, ident, r, recs, bad,
         exp_cd = pm.absolute(cd, roots)
         ctx.count('c12.probe_cwd_compared')
         if pm.norm_abs(rec['cwd']) != exp_cd:
-            bad('use point %s: the process was started in %r, the current directory is %r' % (ident_, rec['cwd'],
-                                                                                              exp_cd),
-                use_point=ident_, expected=exp_cd, got=rec['cwd'])
+            bad('use point %s: the process was started in %r, the current directory is %r'
+                % (ident_, rec['cwd'], exp_cd), use_point=ident_, expected=exp_cd, got=rec['cwd'])
         argv = rec['argv']
         if len(argv) != len(items):
             bad('use point %s: %d arguments rendered, %d expected' % (ident_, len(argv), len(items)),
                 use_point=ident_, argv=argv)
             continue
-        for (lab, kind, loc, prefix), got in zip(items, argv):
+        for (j, lab, kind, loc, prefix), got in zip(items, argv):
             want = pm.absolute(loc, roots)
             ctx.count('c12.renderings_compared')
             if kind == 'concat':
@@ -735,17 +808,19 @@ def _judge_r(case, ctx, exp, d, home_abs, acthome_abs, sds, ident, r, recs, bad,
                 ok = got.startswith('/') and pm.norm_abs(got) == want
                 want_s = want
             if not ok:
-                bad('use point %s (cd=%s/%s): %s rendered %r, expected %r = root(%s) + %r'
-                    % (ident_, cd[0], cd[1], lab, got, want_s, loc[0], loc[1]),
+                ck = '' if j is None else ' [chain %s]' % '/'.join(str(x) for x in case['chains'][j]['key'])
+                bad('use point %s (cd=%s/%s): %s%s rendered %r, expected %r = root(%s) + %r'
+                    % (ident_, cd[0], cd[1], lab, ck, got, want_s, loc[0], loc[1]),
                     use_point=ident_, symbol=lab, expected=want_s, got=got, root=loc[0], suffix=loc[1],
                     cd=list(cd))
-            if lab.startswith('P') and len(sample_items) < 6:
+            if j is not None and j == case.get('sample') and len(sample_items) < 12:
                 sample_items.append({'use_point': ident_, 'cd': '%s/%s' % cd, 'symbol': lab, 'expected': want_s,
                                      'observed': got})
     sample = None
-    if len(case['chain']) >= 2 and case['chain'][0].get('rel') == 'cd':
-        sample = {'kind': 'R', 'case_text': case_text.replace(probe.PROBE, 'PROBE'), 'comparisons': sample_items}
-    return [key], sample
+    if case.get('sample') is not None:
+        sample = {'kind': 'R (chain %s of the case)' % _LETTERS[case['sample']], 'case_text': env['case_text'],
+                  'comparisons': sample_items}
+    return res, sample
 
 
 def _check_object(path, obj, roots):
@@ -772,84 +847,115 @@ def _check_object(path, obj, roots):
     return None
 
 
-def _judge_w(case, ctx, info, d, home_abs, acthome_abs, sds, ident, r, recs, bad, case_text):
+def _predicted_escape(target_rel, obj, instr, before_exists):
+    """Effect on the case directory IF the object were created at the absolute place named by the argument
+    (doc/BUGS.rst): the object, its documented contents and the missing intermediate directories."""
+    if instr == 'file+=':
+        return {'added': [], 'removed': [], 'changed': [target_rel]}
+    if instr == 'dir+=':
+        return {'added': sorted(os.path.join(target_rel, n) for n in obj[1]), 'removed': [], 'changed': []}
+    added = [target_rel] + ([os.path.join(target_rel, n) for n in obj[1]] if obj[0] == 'd' else [])
+    parent = os.path.dirname(target_rel)
+    while parent and not before_exists(parent):
+        added.append(parent)
+        parent = os.path.dirname(parent)
+    return {'added': sorted(added), 'removed': [], 'changed': []}
+
+
+def _judge_rejection(env, what_arg, verdicts, extra_detail):
+    """Common to W (rejected) and K: documented verdict, nothing executed, home directories unchanged.
+    ONE violation per case, listing every deviation."""
+    r, ident = env['r'], env['ident']
+    problems = []
+    if ident not in verdicts or r.rc != 65:
+        problems.append('%s must be rejected before execution with %s/65, got %s/%s'
+                        % (what_arg, ' or '.join(verdicts), ident, r.rc))
+    if env['home_changed']:
+        problems.append('home directories modified: %r' % {k: v for k, v in env['hd'].items() if v})
+    if ident in verdicts and (env['observed_sandbox'] or r.out != ''):
+        problems.append('rejected, yet a sandbox was created (so execution had begun): %r' % r.new_tmp_entries)
+    if problems:
+        env['bad']('; '.join(problems), expected={'ident': list(verdicts), 'rc': 65, 'sandbox_created': False,
+                                                    'home': 'unchanged'}, **extra_detail)
+
+
+def _judge_w(env, info):
+    case, ctx, bad, r, ident = env['case'], env['ctx'], env['bad'], env['r'], env['ident']
     verdict = info['verdict']
     key = ('W', case['instr'], case['phase']) + tuple(case['key']) + (verdict,)
-    ids = [x['id'] for x in recs]
     ctx.count('c12.creation_verdicts_compared')
+    env['observed_sandbox'] = bool(r.new_tmp_entries) or any(e[0] == 'tempfile.mkdtemp' for e in r.audit)
     sample = None
     if verdict != 'PASS':
-        if ident != verdict or r.rc != 65:
-            bad('creation argument with relativity %r must be rejected with %s/65, got %s/%s'
-                % (info['rel'], verdict, ident, r.rc), expected=verdict)
-        if ids:
-            bad('rejected before execution, yet instructions were executed (probe records %r)' % ids,
-                expected=verdict)
-        if r.new_tmp_entries or r.out != '':
-            bad('rejected before execution, yet a sandbox exists: %r' % (r.new_tmp_entries or r.out),
-                expected=verdict)
-        if case['phase'] == 'assert' and case['instr'] == 'file' and len(case['chain']) == 2:
-            sample = {'kind': 'W-rejected', 'case_text': case_text.replace(probe.PROBE, 'PROBE'),
-                      'expected': {'ident': verdict, 'rc': 65, 'executed': [], 'home': 'unchanged'},
-                      'observed': {'ident': ident, 'rc': r.rc, 'executed': ids}}
+        detail = {'kind': 'w-reject', 'relativity': info['rel'], 'path_argument': info['path_arg'],
+                  'defs': info['defs']}
+        if info['abs_with_ref']:
+            # an absolute path that contains a symbol reference: separately labelled (KNOWN)
+            roots = {'abs:out': os.path.join(env['home'], 'absbase')}
+            target = os.path.normpath(pm.absolute(info['loc'], roots).lstrip('/'))
+            before_exists = lambda rel: os.path.lexists(os.path.join(env['d'], rel)) and rel not in env['hd']['added']
+            detail.update(kind='abs-escape', group='symref-no-relativity', kform='symbol-abs-with-symref',
+                          instr=case['instr'], target=target,
+                          predicted_defect=_predicted_escape(target, info['obj'], case['instr'], before_exists))
+        _judge_rejection(env, 'a creation argument whose ultimate relativity is %r' % info['rel'], (verdict,), detail)
+        if case.get('sample'):
+            sample = {'kind': 'W-rejected', 'case_text': env['case_text'],
+                      'expected': {'ident': verdict, 'rc': 65, 'sandbox_created': False, 'home': 'unchanged'},
+                      'observed': {'ident': ident, 'rc': r.rc, 'sandbox_created': env['observed_sandbox'],
+                                   'home_diff': env['hd']}}
         return [key], sample
+    problems = []
+    pr = target = None
+    if env['home_changed']:
+        problems.append('home directories modified: %r' % {k: v for k, v in env['hd'].items() if v})
     if ident != 'PASS' or r.rc != 0:
-        bad('creation argument with relativity %r is accepted by the manual, got %s/%s' % (info['rel'], ident, r.rc),
-            expected='PASS')
-        return [key], None
-    if ids != ['pre', 'post']:
-        bad('expected the instructions before and after the creation to run once each, probe records %r' % ids)
-    if not _sds_ok(sds, r, r.new_tmp_entries):
-        bad('--keep did not print the sandbox directory created by this run: %r' % sds)
-        return [key], None
-    roots = _roots(d, home_abs, acthome_abs, sds)
-    roots['abs:out'] = home_abs + '/absbase'
-    target = pm.absolute(info['loc'], roots)
-    ctx.count('c12.created_objects_located')
-    pr = _check_object(target, info['obj'], roots)
-    if pr is not None:
-        snap = sorted(k for k in snapshot_tree(sds) if not k.startswith('internal'))
-        bad('%s did not create its object at root(%s) + %r: %s' % (case['instr'], info['loc'][0], info['loc'][1], pr),
-            expected=target, sandbox_contents=snap[:40])
-    if case['phase'] == 'before-assert' and case['instr'] == 'copyf' and len(case['chain']) == 2:
-        sample = {'kind': 'W-accepted', 'case_text': case_text.replace(probe.PROBE, 'PROBE'),
+        problems.append('a creation argument with relativity %r is accepted by the manual, got %s/%s'
+                        % (info['rel'], ident, r.rc))
+    elif not _sds_ok(env):
+        problems.append('--keep did not print the sandbox directory created by this run: %r' % env['sds'])
+    else:
+        roots = _roots(env)
+        target = pm.absolute(info['loc'], roots)
+        ctx.count('c12.created_objects_located')
+        pr = _check_object(target, info['obj'], roots)
+        if pr is not None:
+            snap = sorted(k for k in snapshot_tree(env['sds']) if not k.startswith('internal'))
+            problems.append('%s did not create its object at root(%s) + %r: %s; sandbox holds %r'
+                            % (case['instr'], info['loc'][0], info['loc'][1], pr, snap[:30]))
+    if problems:
+        bad('; '.join(problems), kind='w-accept', expected={'ident': 'PASS', 'object_at': target},
+            relativity=info['rel'], path_argument=info['path_arg'], defs=info['defs'])
+    if case.get('sample'):
+        sample = {'kind': 'W-accepted', 'case_text': env['case_text'],
                   'expected': {'ident': 'PASS', 'object_at': target}, 'observed': {'ident': ident, 'problem': pr}}
     return [key], sample
 
 
-def _judge_k(case, ctx, info, d, home, acthome, hd, below, home_changed, ident, r, recs, bad, case_text):
+def _judge_k(env, info):
+    case, ctx, r, ident = env['case'], env['ctx'], env['r'], env['ident']
     ctx.count('c12.k_class_cases')
     ctx.count('c12.creation_verdicts_compared')
-    ids = [x['id'] for x in recs]
+    env['observed_sandbox'] = bool(r.new_tmp_entries) or any(e[0] == 'tempfile.mkdtemp' for e in r.audit)
     key = ('K', case['kform'], case['instr'], ident)
-    hrel = home if case['which'] == 'home' else acthome
+    hrel = env['home'] if case['which'] == 'home' else env['acthome']
     target = os.path.normpath(os.path.join(hrel, info['target']))  # relative to the case dir
-    # what the documented defect (doc/BUGS.rst: "When PathPart is absolute THEN PathDdv will be absolute") would do
-    obj = info['obj']
-    if case['instr'] in ('file+=',):
-        predicted = {'added': [], 'removed': [], 'changed': [target]}
-    else:
-        inner = sorted(os.path.join(target, n) for n in obj[1]) if obj[0] == 'd' else []
-        predicted = {'added': sorted([target] + inner), 'removed': [], 'changed': []}
-    problems = []
-    if ident not in ('SYNTAX_ERROR', 'VALIDATION_ERROR') or r.rc != 65:
-        problems.append('an absolute file name %s must be rejected before execution (manual: "If FILE-NAME is an '
-                        'absolute path, then RELATIVITY must not be given"; creation accepts only act/tmp/cd), '
-                        'got %s/%s' % ('combined with a relativity' if info['group'] == 'with-relativity'
-                                       else 'as creation target', ident, r.rc))
-    if home_changed:
-        problems.append('home directory modified: %r' % hd)
-    if ident in ('SYNTAX_ERROR', 'VALIDATION_ERROR') and (ids or r.new_tmp_entries):
-        problems.append('rejected, yet executed: probes %r sandbox %r' % (ids, r.new_tmp_entries))
-    if problems:
-        bad('; '.join(problems), kind='abs-escape', group=info['group'], kform=case['kform'], instr=case['instr'],
-            path_argument=info['path_arg'], defs=info['defs'], predicted_defect=predicted, target=target,
-            probe_ids=ids)
+    before_exists = lambda rel: os.path.lexists(os.path.join(env['d'], rel)) and rel not in env['hd']['added']
+    detail = {'kind': 'abs-escape', 'group': info['group'], 'kform': case['kform'], 'instr': case['instr'],
+              'path_argument': info['path_arg'], 'defs': info['defs'], 'target': target,
+              'predicted_defect': _predicted_escape(target, info['obj'], case['instr'], before_exists)}
+    what = {'explicit-relativity': 'an absolute file name combined with a relativity (manual: "If FILE-NAME is an '
+                                   'absolute path, then RELATIVITY must not be given")',
+            'symref-no-relativity': 'an absolute path (given without relativity, containing a symbol reference) as '
+                                    'creation target or as value of a path symbol used for creation (creation accepts '
+                                    'only act/tmp/cd; a symbol whose value is absolute is to be rejected)',
+            'literal': 'a constant absolute path as creation target (creation accepts only the act, tmp and current '
+                       'directories)'}[info['group']]
+    _judge_rejection(env, what, ('SYNTAX_ERROR', 'VALIDATION_ERROR'), detail)
     sample = None
-    if case['kform'] == 'opt-act' and case['instr'] == 'file=':
-        sample = {'kind': 'K', 'case_text': case_text.replace(probe.PROBE, 'PROBE'),
+    if case.get('sample'):
+        sample = {'kind': 'K ' + info['group'], 'case_text': env['case_text'],
                   'expected': {'ident': 'SYNTAX_ERROR or VALIDATION_ERROR', 'home': 'unchanged'},
-                  'observed': {'ident': ident, 'home_diff': hd, 'm1_writes_below_home': below}}
+                  'observed': {'ident': ident, 'home_diff': env['hd'], 'm1_writes_below_home': env['below']}}
     return [key], sample
 
 
@@ -857,35 +963,46 @@ def _judge_k(case, ctx, info, d, home, acthome, hd, below, home_changed, ident, 
 # known findings (keyed by mechanism: input class AND the specific defective observation)
 # =====================================================================================================
 def _is_exact_escape(v, group):
-    """The witness is: class K with the given group, the case PASSed (so the instruction was executed), and the ONLY
-    effect on the home directories is the creation/modification of exactly the object the absolute file name
-    designates (plus its documented contents) -- anything else on these inputs stays a violation."""
+    """The witness is: an absolute-file-name case of the given group, the case PASSed (the instruction was accepted
+    and executed), and the ONLY effect on the home directories is the creation/modification of exactly the object the
+    absolute file name designates (with its documented contents and missing parents) -- any other observation on
+    these inputs stays a violation."""
     dd = v.get('detail') or {}
     if dd.get('kind') != 'abs-escape' or dd.get('group') != group:
         return False
     ob = dd.get('observed') or {}
     if ob.get('ident') != 'PASS' or ob.get('rc') != 0 or ob.get('exc') is not None:
         return False
-    if dd.get('probe_ids') != ['pre', 'post']:
-        return False
     pred = dd.get('predicted_defect') or {}
     hd = ob.get('home_diff') or {}
     for k in ('added', 'removed', 'changed'):
-        if sorted(hd.get(k, [])) != sorted(pred.get(k, ['<none>'])):
+        if sorted(hd.get(k, ['<missing>'])) != sorted(pred.get(k, ['<none>'])):
             return False
-    target = dd.get('target')
+    touched = set(pred.get('added', [])) | set(pred.get('changed', []))
+    if not touched:
+        return False
+    target = dd.get('target') or ''
     for w in ob.get('m1_writes_below_home', []):
-        p = w.split(' ', 1)[1]
-        if not (p == target or p.startswith(target + '/')):
-            return False
+        ev, p = w.split(' ', 1)
+        if p in touched:
+            continue
+        if ev == 'os.mkdir' and (p == '.' or target == p or target.startswith(p + '/')):
+            continue  # mkdir(exist_ok) of an existing ancestor of the object: changes nothing
+        return False
     return True
 
 
 KNOWN = {
-    # doc/BUGS.rst "When PathPart is absolute THEN PathDdv will be absolute": -rel-act /abs/home/x, -rel SYM /abs,
-    # -rel-tmp @[ABS_STRING]@, and path symbols defined that way, are accepted by file/dir/copy and written at /abs
-    'abs-file-name-under-relativity-escapes-root': lambda v: _is_exact_escape(v, 'with-relativity'),
-    # an absolute path WITHOUT relativity (literal, or a leading string symbol holding one, or a symbol defined so with
-    # the default relativity) is accepted as creation target although creation accepts only act/tmp/cd
-    'abs-path-via-default-relativity-accepted-for-creation': lambda v: _is_exact_escape(v, 'no-relativity'),
+    # doc/BUGS.rst "When PathPart is absolute THEN PathDdv will be absolute": an EXPLICIT relativity (option or
+    # -rel SYM) with an absolute FILE-NAME (constant, or through a string symbol; directly or in the definition of a
+    # path symbol): `file -rel-act /abs/home/x`, `-rel SYM /abs/..`, `-rel-tmp @[ABS_STRING]@/x` -- accepted by
+    # file/dir/copy, the object is made at /abs/..
+    'S9-abs-file-name-under-explicit-relativity': lambda v: _is_exact_escape(v, 'explicit-relativity'),
+    # an absolute path given WITHOUT relativity but containing a symbol reference (`@[ABS_STRING]@/x`,
+    # `/abs/home/@[S]@`, `"/abs/home/d q/@[S]@"`) is bound to the default relativity (cd): as creation argument it is
+    # accepted, and a path symbol defined so passes the relativity restriction although its value is absolute
+    'abs-path-with-symbol-reference-taken-as-relative': lambda v: _is_exact_escape(v, 'symref-no-relativity'),
+    # a CONSTANT absolute path written directly as the creation argument (`file /abs/home/x`) is accepted although
+    # creation arguments accept only act/tmp/cd (the same value through a path symbol IS rejected)
+    'abs-literal-accepted-as-creation-target': lambda v: _is_exact_escape(v, 'literal'),
 }
